@@ -357,6 +357,7 @@ fn drive(sim: &mut Sim, prof: &Profile, rng: &mut Rng, rep: &mut Report, ctype: 
 	}
 	let mut disconnected: Vec<(usize, usize)> = vec![];
 	let mut expired_done = false;
+	let mut short_expiry_sent = false;
 	let mut mined = 0u32;
 	for _s in 0..prof.steps {
 		sim.w.step += 1;
@@ -756,7 +757,7 @@ fn drive(sim: &mut Sim, prof: &Profile, rng: &mut Rng, rep: &mut Report, ctype: 
 				let staged: Option<usize> = sim.w.payments.iter().rev().find(|p| p.class == "staged-mpp" && p.dst == dst && p.src == src && sim.w.step - p.step < 40 && !sim.w.payments.iter().any(|q| q.reg == p.reg && q.class == "staged-mpp-2")).map(|p| p.idx);
 				let opts = match rng.below(8) {
 					// (once per run, while nothing is on chain: fifteen blocks pass; MIN_FINAL_CLTV_EXPIRY_DELTA is 42)
-					0 | 1 if !expired_done && sim.w.chans.iter().all(|c| !c.closed) && rng.chance(1, 3) => {
+					0 | 1 if !expired_done && !short_expiry_sent && sim.w.chans.iter().all(|c| !c.closed) && rng.chance(1, 3) => {
 						expired_done = true;
 						rep.count("c04_expired_secret_sends");
 						SendOpts { expired: Some(if rng.chance(2, 3) { Some(*rng.pick(&[45u16, 60, 80])) } else { None }), class: "expired-secret", ..Default::default() }
@@ -792,7 +793,11 @@ fn drive(sim: &mut Sim, prof: &Profile, rng: &mut Rng, rep: &mut Report, ctype: 
 				// a sixth of the ordinary single sends pays a registration made with a custom minimum final CLTV delta D,
 				// with a final delta of D-2 (too short by one block once the sender's +1 is counted: must be refused), D-1, D or D+5
 				let (opts, final_cltv) = if opts.class == "exact-registered-amount" && chans.len() == 1 && rng.chance(1, 2) {
-					let d = *rng.pick(&[45u16, 60, 100]);
+					// (deltas of 60 and more: with the dozen blocks a random run mines, a claimed HTLC is never within the
+					// recipient's go-on-chain distance of its expiry while its fulfilment is still on the wire; and the
+					// fifteen-block burst of the expired-secret class does not follow such a send)
+					short_expiry_sent = true;
+					let d = *rng.pick(&[60u16, 100, 144]);
 					let off = *rng.pick(&[-2i32, -2, -1, 0, 5]);
 					rep.count(if off <= -2 { "c04_sends_below_a_custom_final_cltv_delta" } else { "c04_sends_at_or_above_a_custom_final_cltv_delta" });
 					(SendOpts { custom_final: Some(d), class: if off <= -2 { "short-final-cltv" } else { "custom-final-cltv" }, ..Default::default() }, (d as i32 + off) as u32)
